@@ -4,6 +4,8 @@ addresses".  Property theorems only; lemmas in Lemmas/IPSetL1..L10, IPSetDiff1..
 -/
 import NetaddrVerif.Lemmas.IPSetL10
 import NetaddrVerif.Lemmas.IPSetDiff5
+import NetaddrVerif.Lemmas.IPSetL10b
+import NetaddrVerif.Lemmas.IPSetQ4
 namespace NV.C07
 open NV NV.IPSet
 
@@ -81,5 +83,139 @@ theorem iter_order (s : St) (hs : Inv s) :
 
 example : contains [⟨4, 0x0a000000, 24⟩] ⟨4, 0x0a000005, 32⟩ = true := by decide +kernel
 example : contains [⟨4, 0x0a000000, 24⟩] ⟨4, 0x0a000005, 23⟩ = false := by decide +kernel
+
+/-! ### queries: iter_ipranges / iscontiguous / iprange / size / len / < / > -/
+
+/-- `iter_ipranges()` is, per family, the interval normal form of the set: every range is
+    valid and of a real family, the list ascends with IPv4 before IPv6, any two ranges of one
+    family are separated by a gap (so none can be merged), and the ranges cover exactly the
+    denoted addresses -/
+theorem iter_ipranges_spec (s : St) (hs : Inv s) :
+    (∀ r ∈ iterIpranges s, (r.1 = 4 ∨ r.1 = 6) ∧ r.2.1 ≤ r.2.2) ∧
+    (iterIpranges s).Pairwise (fun x y => x.1 < y.1 ∨ (x.1 = y.1 ∧ x.2.2 + 1 < y.2.1)) ∧
+    (∀ ver a, (∃ r ∈ iterIpranges s, r.1 = ver ∧ r.2.1 ≤ a ∧ a ≤ r.2.2) ↔ denS s ver a) := by
+  obtain ⟨i1, i2, i3⟩ := IPSet.iterIpranges_spec s hs
+  exact ⟨fun r hr => ⟨iterIpranges_ver s hs r hr, i1 r hr⟩, i2, i3⟩
+
+/-- the ranges are determined by the denoted addresses alone -/
+theorem iter_ipranges_unique (s t : St) (hs : Inv s) (ht : Inv t)
+    (h : ∀ ver a, denS s ver a ↔ denS t ver a) : iterIpranges s = iterIpranges t :=
+  IPSet.iterIpranges_unique s t hs ht h
+
+/-- `iscontiguous()` is True exactly when `iter_ipranges()` yields at most one range
+    (no canonicity needed: this is a fact about the two loops) -/
+theorem iscontiguous_iff_ranges (s : St) : iscontiguous s = true ↔ (iterIpranges s).length ≤ 1 :=
+  IPSet.iscontiguous_iff_len s
+
+/-- `iscontiguous()`: the set is empty or exactly one interval of one family; in particular a
+    set with addresses of both families is not contiguous -/
+theorem iscontiguous_iff (s : St) (hs : Inv s) :
+    iscontiguous s = true ↔
+      (∀ ver a, ¬ denS s ver a) ∨
+      ∃ v lo hi, lo ≤ hi ∧ ∀ u a, denS s u a ↔ u = v ∧ lo ≤ a ∧ a ≤ hi :=
+  IPSet.iscontiguous_iff s hs
+
+/-- `iprange()` returns None exactly for the empty set -/
+theorem iprange_none_iff (s : St) (hs : Inv s) : iprange s = .ok none ↔ ∀ ver a, ¬ denS s ver a :=
+  IPSet.iprange_none_iff s hs
+
+/-- `iprange()` returns `r` exactly when the set is the non-empty interval `[r.lo, r.hi]` of
+    family `r.ver` -/
+theorem iprange_some_iff (s : St) (hs : Inv s) (r : Rng) :
+    iprange s = .ok (some r) ↔
+      r.lo ≤ r.hi ∧ ∀ u a, denS s u a ↔ u = r.ver ∧ r.lo ≤ a ∧ a ≤ r.hi :=
+  IPSet.iprange_some_iff s hs r
+
+/-- `iprange()` raises exactly when the set is not contiguous, and then it is ValueError —
+    never any other error (no IndexError at the top address, no error for mixed families) -/
+theorem iprange_error_iff (s : St) (e : Err) :
+    iprange s = .error e ↔ e = .value ∧ iscontiguous s = false := IPSet.iprange_error_iff s e
+
+/-- the three outcomes of `iprange()`, read off `iter_ipranges()`: no range → None, one range →
+    that range, two or more → ValueError -/
+theorem iprange_by_ranges (s : St) :
+    iprange s = match iterIpranges s with
+      | [] => .ok none
+      | [r] => .ok (some ⟨r.1, r.2.1, r.2.2⟩)
+      | _ :: _ :: _ => .error .value := IPSet.iprange_eq s
+
+/-- `size` is the number of addresses: the sum of the lengths of the merged ranges -/
+theorem size_eq_ranges (s : St) (hs : Inv s) :
+    size s = ((iterIpranges s).map (fun r => r.2.2 - r.2.1 + 1)).sum := by
+  rw [IPSet.size_eq_ranges s hs, vrSum_eq_sum]
+
+/-- `size` depends on the denoted addresses only -/
+theorem size_unique (s t : St) (hs : Inv s) (ht : Inv t)
+    (h : ∀ ver a, denS s ver a ↔ denS t ver a) : size s = size t := IPSet.size_unique s t hs ht h
+
+/-- `len()`: IndexError exactly above `sys.maxsize`, else the size; nothing else -/
+theorem len_spec (maxint : Nat) (s : St) :
+    (len maxint s = .error .index ↔ size s > maxint) ∧
+    (¬ size s > maxint → len maxint s = .ok (size s)) ∧
+    (len maxint s = .error .index ∨ len maxint s = .ok (size s)) := IPSet.len_spec maxint s
+
+/-- inclusion bounds the sizes … -/
+theorem size_mono (s t : St) (hs : Inv s) (ht : Inv t)
+    (h : ∀ ver a, denS s ver a → denS t ver a) : size s ≤ size t := size_le_of_sub s t hs ht h
+
+/-- … with equality exactly for equal sets -/
+theorem size_eq_iff_of_sub (s t : St) (hs : Inv s) (ht : Inv t)
+    (h : ∀ ver a, denS s ver a → denS t ver a) :
+    size s = size t ↔ ∀ ver a, denS s ver a ↔ denS t ver a :=
+  ⟨fun he ver a => ⟨h ver a, sup_of_sub_of_size_eq s t hs ht h he ver a⟩,
+   fun hd => IPSet.size_unique s t hs ht hd⟩
+
+/-- `s < t`: strict inclusion of the address sets -/
+theorem lt_iff (s t : St) (hs : Inv s) (ht : Inv t) :
+    lt s t = true ↔
+      (∀ ver a, denS s ver a → denS t ver a) ∧ ¬ (∀ ver a, denS t ver a → denS s ver a) :=
+  IPSet.lt_iff s t hs ht
+
+/-- `s > t`: strict inclusion the other way round -/
+theorem gt_iff (s t : St) (hs : Inv s) (ht : Inv t) :
+    gt s t = true ↔
+      (∀ ver a, denS t ver a → denS s ver a) ∧ ¬ (∀ ver a, denS s ver a → denS t ver a) :=
+  IPSet.lt_iff t s ht hs
+
+/-! ### concrete instances -/
+
+/-- a canonical mixed-family state: two adjacent but not combinable IPv4 blocks
+    (10.0.1.0/24, 10.0.2.0/24), a separate one (10.0.4.0/24) and ::1/128 -/
+def exS : St := [⟨4, 0x0a000100, 24⟩, ⟨4, 0x0a000200, 24⟩, ⟨4, 0x0a000400, 24⟩, ⟨6, 1, 128⟩]
+
+/-- it is reachable through `add` from the empty set, hence satisfies the hypotheses -/
+theorem exS_inv : Inv exS := by
+  have e : exS = add (add (add (add [] (.net ⟨4, 0x0a000100, 24⟩)) (.net ⟨4, 0x0a000200, 24⟩))
+      (.net ⟨4, 0x0a000400, 24⟩)) (.net ⟨6, 1, 128⟩) := by decide +kernel
+  rw [e]
+  have ok : ∀ n : Net, (n.ver = 4 ∨ n.ver = 6) → n.val < 2 ^ width n.ver → n.plen ≤ width n.ver →
+      ArgOK (.net n) := fun n a b c => ⟨a, b, c⟩
+  have h1 := (add_spec [] inv_nil (.net ⟨4, 0x0a000100, 24⟩) (ok _ (by decide) (by decide) (by decide))).1
+  have h2 := (add_spec _ h1 (.net ⟨4, 0x0a000200, 24⟩) (ok _ (by decide) (by decide) (by decide))).1
+  have h3 := (add_spec _ h2 (.net ⟨4, 0x0a000400, 24⟩) (ok _ (by decide) (by decide) (by decide))).1
+  exact (add_spec _ h3 (.net ⟨6, 1, 128⟩) (ok _ (by decide) (by decide) (by decide))).1
+
+example : iterIpranges exS = [(4, 0x0a000100, 0x0a0002ff), (4, 0x0a000400, 0x0a0004ff), (6, 1, 1)] := by
+  rw [iterIpranges, iterCidrs_sorted _ (by decide +kernel)]; decide +kernel
+example : iscontiguous exS = false := by
+  rw [iscontiguous, iterCidrs_sorted _ (by decide +kernel)]; decide +kernel
+example : iprange exS = .error .value := by
+  rw [iprange, iscontiguous, iterCidrs_sorted _ (by decide +kernel)]; decide +kernel
+example : iprange [⟨4, 0x0a000100, 24⟩, ⟨4, 0x0a000200, 24⟩] = .ok (some ⟨4, 0x0a000100, 0x0a0002ff⟩) := by
+  rw [iprange, iscontiguous, iterCidrs_sorted _ (by decide +kernel)]; decide +kernel
+/-- the top address: no IndexError -/
+example : iprange [⟨4, 0xffffffff, 32⟩] = .ok (some ⟨4, 0xffffffff, 0xffffffff⟩) := by decide +kernel
+/-- both families, numerically "adjacent" ends: not contiguous -/
+example : iprange [⟨4, 0xffffffff, 32⟩, ⟨6, 0, 128⟩] = .error .value := by
+  rw [iprange, iscontiguous, iterCidrs_sorted _ (by decide +kernel)]; decide +kernel
+example : iprange [] = .ok none := by decide +kernel
+example : size exS = 769 := by decide +kernel
+example : len (2 ^ 63 - 1) [⟨6, 0, 64⟩] = .error .index := by decide +kernel
+example : len (2 ^ 63 - 1) exS = .ok 769 := by decide +kernel
+example : lt [⟨4, 0x0a000200, 24⟩] exS = true := by decide +kernel
+example : lt exS exS = false := by decide +kernel
+example : gt [⟨4, 0x0a000200, 23⟩] [⟨4, 0x0a000200, 24⟩] = true := by decide +kernel
+/-- fewer addresses but not a subset: not `<` -/
+example : lt [⟨4, 0x0a000200, 24⟩] [⟨4, 0x0a000400, 24⟩, ⟨6, 1, 128⟩] = false := by decide +kernel
 
 end NV.C07
